@@ -390,6 +390,31 @@ def _concrete_history(W, seq, order, iscsd, backend):
             r = a.compute_single_bin(0.2, L=128); r0 = mk().compute_single_bin(0.2, L=128)
             ok = ok and bool(rnp.allclose(r.XX, r0.XX, rtol=1e-10))
         ok = ok and bool(rnp.array_equal(data, keep))
+    # ... and the small configuration of the symbolic run itself (stub plan with L=[6,4], K=[1,2] on N=8 samples, single bin at L=4),
+    # with the numbers of the solver's model
+    N2, Ls, Ks = 8, [6, 4], [1, 2]
+    fs = float(W.real("fs")); fv = [float(W.real("f%d" % j)) for j in range(2)]; freq = float(W.real("freq"))
+    xs = rnp.array([float(v) for v in W.reals("x", N2)])
+    d2 = rnp.vstack([xs, rnp.array([float(v) for v in W.reals("y", N2)])]) if iscsd else xs
+    if fs > 0 and freq >= 0:
+        def mkplan(**kw):
+            return {"f": rnp.array(fv), "r": rnp.array([fs / L for L in Ls]), "b": rnp.array([fv[j] * Ls[j] / fs for j in range(2)]), "L": rnp.array(Ls), "K": rnp.array(Ks), "navg": rnp.array(Ks),
+                    "D": [rnp.array([0]), rnp.array([0, 4])], "O": rnp.zeros(2), "nf": 2}
+        mk2 = lambda: A.SpectrumAnalyzer(d2, fs, order=order, backend=backend, scheduler=mkplan, win="kaiser")
+        b = mk2()
+        same = lambda u, v: bool(rnp.allclose(rnp.asarray(u, dtype=complex), rnp.asarray(v, dtype=complex), rtol=1e-9, atol=1e-12, equal_nan=True))
+        try:
+            for op in seq:
+                if op == "plan":
+                    b.plan()
+                elif op == "compute":
+                    r, r0 = b.compute(), mk2().compute()
+                    ok = ok and same(r.XX, r0.XX) and same(r.XY, r0.XY) and same(r.M2, r0.M2)
+                else:
+                    r, r0 = b.compute_single_bin(freq, L=4), mk2().compute_single_bin(freq, L=4)
+                    ok = ok and same(r.XX, r0.XX) and same(r.XY, r0.XY) and same(r.M2, r0.M2) and same(r.navg, r0.navg) and len(r.D[0]) == len(r0.D[0]) and same(r.D[0], r0.D[0])
+        except (ValueError, RuntimeError):
+            pass       # a configuration the public API rejects (e.g. frequency beyond Nyquist): nothing to compare
     W.resolver = lambda name: ok
 
 
